@@ -35,6 +35,8 @@ class IpmbDev(object):
         pass
 
     def is_ipmc_accessible(self, target):
+        self._inc_sequence_number()
+
         header = IpmbHeaderReq()
         header.netfn = 6
         header.rs_lun = 0
